@@ -478,6 +478,15 @@ impl Connection {
             return Some(challenge);
         }
 
+        // NEW_TOKEN frames queued (or queued again after a loss) for an address the peer has left are
+        // never written; forget them here, so that they do not make this connection look as if it had
+        // something to send and end up as a packet without frames
+        let remote = self.path.remote;
+        self.spaces[SpaceId::Data]
+            .pending
+            .new_tokens
+            .retain(|addr| *addr == remote);
+
         // If we need to send a probe, make sure we have something to send.
         for space in SpaceId::iter() {
             let request_immediate_ack =
